@@ -485,3 +485,46 @@ func ForeignEnv(f func()) {
 	}()
 	f()
 }
+
+// Batch is a group of cases judged at the same time, each on a goroutine of its own (the cases share
+// nothing: every one builds the jennifer objects it looks at itself).
+type Batch[C any] struct {
+	Cases  []C `json:"cases"`
+	Rounds int `json:"rounds"`
+}
+
+// Together turns a check of one case into a check of a batch: every case is judged alone first (a failure
+// there is reported as such), then all of them at once, Rounds times over, released together. A case that
+// holds alone and fails while other goroutines work on other cases shows state shared behind the callers'
+// backs. What fn reports must not depend on timing on correct code.
+func Together[C any](fn func(C) error) func(Batch[C]) error {
+	return func(b Batch[C]) error {
+		for i, c := range b.Cases {
+			c := c
+			if err := Safe(func() error { return fn(c) }); err != nil {
+				return fmt.Errorf("case %d of the batch, judged alone: %v", i, err)
+			}
+		}
+		for round := 0; round < b.Rounds; round++ {
+			errs := make([]error, len(b.Cases))
+			start := make(chan struct{})
+			var wg sync.WaitGroup
+			for i := range b.Cases {
+				wg.Add(1)
+				go func(i int) {
+					defer wg.Done()
+					<-start
+					errs[i] = Safe(func() error { return fn(b.Cases[i]) })
+				}(i)
+			}
+			close(start)
+			wg.Wait()
+			for i, err := range errs {
+				if err != nil {
+					return fmt.Errorf("case %d of the batch holds when judged alone; judged while the %d other cases were being judged on goroutines of their own (round %d) it fails: %v", i, len(b.Cases)-1, round, err)
+				}
+			}
+		}
+		return nil
+	}
+}
